@@ -90,6 +90,8 @@ const (
 	fpRevokeCR     = "C20:CheckRedirect-overwritten:CallRevokeEndpoint"
 	fpGetAudience  = "C20:storage-device-state-mutated-by-getter:GetAudience"
 	fpDefaultEP    = "C20:op.DefaultEndpoints-mutated-by:NewProvider-endpoint-option"
+	// found when issuer strategies were added to the order sub-check (listed in known.d)
+	fpCallerHeaders = "C20:caller-slice-rewritten:WithIssuerFromCustomHeaders"
 )
 
 // ---- op kinds ---------------------------------------------------------------------------------
